@@ -24,16 +24,19 @@ from vf.runner import Violation
 
 EPS = 2.220446049250313e-16
 
-# ---- tolerances (norm-wise relative error  max|a-b| / (1 + max(|a|,|b|)) unless noted) -- see calibration notes at
-# the bottom of this file (worst observed on the unchanged tree over seeds 1..3 quick + 1 thorough, then ~100x).
-TOL_KIN = 1e-11        # kinematics / com quantities: pure products of rotations and sums
-TOL_DYN = 1e-10        # M, bias, passive, actuator forces (sums over bodies, cancellation in rne)
-TOL_ACC = 1e-10        # * max(1, cond(M)): qacc_smooth = M^-1 f
-TOL_CONTACT = 1e-9     # contact dist/pos/frame of analytic primitives
-TOL_EFC = 1e-8         # efc rows (J, aref, D) - D = 1/R amplifies impedance rounding
-TOL_SOLVE = 2e-6       # qacc / qfrc_constraint: Newton, tolerance=0, 60 iterations in both engines
-TOL_STEP = 2e-6        # next state: dominated by the solver term  h * dqacc
-TOL_SENS = 1e-9        # sensordata (pos/vel stages); acc-stage sensors use TOL_SOLVE
+# ---- tolerances: norm-wise relative error  max|a-b| / (1 + max(|a|,|b|)) per array.
+# Calibration on the unchanged tree (quick seeds 1-3 + one thorough run, float64 CPU, XLA opt level 0), worst observed:
+#   kinematics/com 1.5e-15, cinert 4e-16, M 4e-15, forces 1.6e-14, qacc_smooth 2.3e-13 (cond(M) up to 3e4),
+#   analytic contacts 4e-16, efc rows 4e-13, qacc 1.2e-11, efc_force 5e-13, step.qvel 2.7e-13, sensors 7e-14.
+# Constants are fixed at >= ~100x of those values; solver-dependent ones are multiplied by max(1, cond(M)).
+TOL_KIN = 1e-12        # kinematics / com quantities: products of rotations and sums
+TOL_DYN = 1e-11        # M, bias, passive, actuator forces (sums over bodies, cancellation in rne)
+TOL_ACC = 1e-12        # * max(1, cond(M)): qacc_smooth = M^-1 f
+TOL_CONTACT = 1e-11    # contact dist/pos/frame of analytic primitives (plane/sphere/capsule)
+TOL_EFC = 1e-9         # efc rows (J, aref, D): D = 1/R amplifies impedance rounding
+TOL_SOLVE = 1e-9       # * max(1, cond(M)): qacc / qfrc_constraint; Newton, tolerance=0, 60 iterations in both engines
+TOL_STEP = 1e-9        # * max(1, cond(M)): next state
+TOL_SENS = 1e-11       # sensordata (pos/vel stages); acc-stage sensors use 10*TOL_SOLVE*cond
 
 ANALYTIC = {'plane', 'sphere', 'capsule'}
 # capsule-capsule: math.closest_segment_to_segment_points divides by (denom + 1e-6): closest points (hence pos/normal)
